@@ -397,7 +397,7 @@ def r3_client_methods(chk, fx):
                     chk.instance("C04/R3", "return value of unrecognised form", b.name, loc_of(sp), holds=False,
                                  key="C04/R3 %s unrecognised-return-form" % fn, detail=str(rv)[:200])
                     n += 1
-    chk.floor("C04/R3 client-method obligations", n, 12)
+    chk.floor("C04/R3 client-method obligations", n, 8)
 
 
 # ---------------------------------------------------------------------------------------------
